@@ -11,7 +11,7 @@ use libfuzzer_sys::fuzz_target;
 
 fuzz_target!(|data: &[u8]| {
     let Ok(text) = std::str::from_utf8(data) else { return };
-    if text.len() > 4096 || text.matches('(').count() > 150 || text.matches('-').count() > 150 || text.matches("not").count() > 150 {
+    if text.len() > 4096 || text.matches('(').count() > 60 || text.matches('-').count() > 40 || text.matches("not").count() > 60 {
         return;
     }
     if let Ok(p) = text.parse::<asp::Program>() {
@@ -26,7 +26,8 @@ fuzz_target!(|data: &[u8]| {
         for f in tau.formulas.iter().take(4) {
             let _ = anthem::formatting::fol::sigma_0::tptp::Format(f).to_string();
         }
-        if p.rules.len() <= 6 && width <= 40 {
+        // problem generation runs the high-degree polynomial simplifier: small programs only
+        if p.rules.len() <= 6 && width <= 40 && text.matches('-').count() <= 12 && text.len() <= 600 {
             let _ = anthem::verif::strong(p.clone(), p.clone(), true, fol::Direction::Universal, false, true, true);
         }
     }
